@@ -85,6 +85,8 @@ class DispatchTemplatePattern_contract:
             check("not dispatched only if no accelerator supports the kernel with these types", not any(supported))
         else:
             name = ret.data
+            check("dispatched to an accelerator that declares a kernel of this CLASS",
+                  any(sh["accs"][j] == sh["kind"] and name == f"acc{j}" for j in range(len(accs))))
             check("dispatched to an accelerator that declares this kernel with exactly these operand types",
                   any(supported[j] and name == f"acc{j}" for j in range(len(accs))))
 
